@@ -89,3 +89,23 @@ pub open spec fn get_lookup(vm: &Vm, receiver: Value, name: LyStr) -> Option<Val
 pub open spec fn set_top(s: Seq<Value>, i: int, v: Value) -> Seq<Value> { s.update(s.len() - 1 - i, v) }
 
 pub open spec fn is_box(v: Value) -> bool { v_is_obj(v) && o_kind(v_obj(v)) == ObjectKind::LyBox }
+
+// ---- op_closure (C02): the capture operands that follow the Closure instruction -------------------------------------------
+/// the j-th capture operand (two bytes after the function slot, two bytes each)
+pub open spec fn capture_operand(vm: &Vm, j: int) -> CaptureIndex { decode_capture(code_u16(vm.ip@ + 2 + 2 * j)) }
+/// the cell the j-th operand names: the box in a local slot of the CURRENT frame, or a capture of the CURRENT closure
+pub open spec fn captured_cell(vm: &Vm, j: int) -> ObjectRef {
+  match capture_operand(vm, j) {
+    CaptureIndex::Local(i) => v_obj(vm.fiber.stack@[vm.fiber.base@ + i as int]),
+    CaptureIndex::Enclosing(i) => capture_box(vm.fiber.caps@, i as int),
+  }
+}
+/// A-shape (resolver + compiler): a Local operand names a slot of the frame that holds a box, an Enclosing operand an existing capture
+pub open spec fn closure_operands_ok(vm: &Vm, f: FunRef) -> bool {
+  forall|j: int| 0 <= j < fun_capture_count(f) ==> (match #[trigger] capture_operand(vm, j) {
+    CaptureIndex::Local(i) => 0 <= vm.fiber.base@ + i as int && vm.fiber.base@ + (i as int) < vm.fiber.stack@.len() && is_box(vm.fiber.stack@[vm.fiber.base@ + i as int]),
+    CaptureIndex::Enclosing(i) => (i as int) < captures_len(vm.fiber.caps@),
+  })
+}
+
+pub open spec fn is_kind(v: Value, k: ObjectKind) -> bool { v_is_obj(v) && o_kind(v_obj(v)) == k }
